@@ -163,6 +163,21 @@ theorem any_accepts_everything (p : Bool) (t : Ty) :
     assignable (.any p) t = true ∧ assignable t (.any p) = true := by
   cases t <;> simp [assignable]
 
+/-- **Exact characterisation with `any`.** The assignability check accepts two types iff they have
+a common `any`-free instance, i.e. iff they are equal up to filling `any` holes (consistency of
+gradual typing). Nothing else is ever accepted. -/
+theorem assignable_iff_consistent (a b : Ty) :
+    assignable a b = true ↔ ∃ c, anyFree c = true ∧ refines a c = true ∧ refines b c = true := by
+  constructor
+  · intro h
+    exact ⟨common a b, common_spec a b h⟩
+  · rintro ⟨c, hc, ha, hb⟩
+    exact assignable_of_common_instance a b c hc ha hb
+
+example : ¬ ∃ c, anyFree c = true ∧ refines (.fn [.any true] (.prim .int)) c = true ∧
+    refines (.fn [.prim .bool] (.prim .bool)) c = true := by
+  rw [← assignable_iff_consistent]; decide
+
 /-- `type_meet` reports an error exactly when `assignability_check` does (all types, `any` included). -/
 theorem meet_accepts_iff_assignable (a b : Ty) : (meet a b).isSome = assignable a b :=
   meet_isSome_eq a b
@@ -209,6 +224,33 @@ example : assignable (.fn [.any true] (.any true)) (.fn [.any true, .any true] (
 /-- Call-site arity gate (`main_checker.rs:766`): accepted iff the counts agree. -/
 theorem call_arity_gate (expected actual : Nat) : arityOk expected actual = true ↔ expected = actual := by
   simp [arityOk]
+
+/-! ## Constraint solving (`solve_type_constraints`, used for contextually typed calls) -/
+
+/-- **Soundness of the generic-instantiation gate.** For an `any`-free concrete type and an
+`any`-free generic type: if `solve_type_constraints` reports no error, then the computed
+substitution really instantiates the generic type to the concrete type (and the returned "solved
+generic type" is the concrete type). So a concrete type that is *not* an instance of the generic
+type is always reported. -/
+theorem solve_sound (tps : List Nat) (c g : Ty) (hc : anyFree c = true) (hg : anyFree g = true)
+    (hok : (solveTypeConstraints tps c g).2.2 = false) :
+    subst (solveTypeConstraints tps c g).1 g = c ∧ (solveTypeConstraints tps c g).2.1 = c := by
+  simp only [solveTypeConstraints, solveMultiple, List.foldl_cons, List.foldl_nil] at hok ⊢
+  have hv0 : AnyFreeVals ([] : Subst) := by intro n t h; simp [Subst.get] at h
+  have hk0 : KeysIn tps ([] : Subst) := by intro n t h; simp [Subst.get] at h
+  have hinv := solve_inv tps g c [] hc hv0 hk0
+  have hfill := fill_inv tps tps (solve tps c g []) hinv.2.2 (fun n h => h)
+  have hass : assignable c (subst (fillPlaceholders tps (solve tps c g [])) g) = true := by
+    rw [← meet_isSome_eq]
+    cases hm : meet c (subst (fillPlaceholders tps (solve tps c g [])) g) with
+    | some _ => rfl
+    | none => simp [hm] at hok
+  have := solve_exact tps g c [] (fillPlaceholders tps (solve tps c g [])) hc hg hv0 hk0
+    (by simpa [fillPlaceholders] using hfill.1) (by simpa [fillPlaceholders] using hfill.2) hass
+  exact ⟨this, this⟩
+
+example : (solveTypeConstraints [1] (.nominal false 1 2 [.prim .int, .prim .bool])
+    (.nominal false 1 2 [.generic 1, .generic 1])).2.2 = true := by decide
 
 /-! ## Branch joins: if / else-if chains and match arms -/
 
